@@ -13,13 +13,17 @@ def run(R, tier, seed, only=None):
     for target in ("sql.sqlite", "sql.generic"):
         jobs = [("c_expr", f"{target}:{tag}", prog, {"target": target, "timeout_ms": to}) for tag, prog in fam]
         propcheck.run_family(R, drv, jobs, f"expressions/{target}", max_inconclusive=0.02)
+    import kchecks
+    d = core.Driver(drv)
+    kchecks.check_fold(R, d, tier, want=("spec",))
+    d.close()
     R.cov["bounds"] = {"rows_per_table": 1, "columns": "a b c d (numeric) p q r (boolean-valued ints)", "value_range": "|v| <= 2^20 (<= 8 when ** occurs)",
                        "trees": "all well-typed (parent, child, side) pairs over 16 binary operators x leaves; unary/binary adjacency; depth-3 trees with both grandchildren compound "
                                 "(quick: seed-rotated slice of 400; thorough: all); case/in/??/null forms; literal and null folding forms; each printed fully parenthesised and with the minimal "
                                 "parentheses of the documented precedence table", "targets": ["sql.sqlite", "sql.generic"]}
     R.cov["functions_encoded"] = ["prqlc::compile per tree (parser Pratt table, expand_binary/unary, static_eval, translate_operator/needs_parentheses, process_null, templates of std.sql.prql)",
                                   "emitted SQL expression encoded by engines/symdb/sqlsem.py under SQLite's typed semantics and SQLite's comparison precedence"]
-    R.cov["trusted_base"] = propcheck.TRUSTED
+    R.cov["trusted_base"] = propcheck.TRUSTED + ["rustc nightly MIR front end", "engines/mirsym (K-fold: static_eval_rq_operator from MIR)"]
     R.cov["outside_bounds"] = ["floats as data (IEEE rounding)", "string and regex operators (~=)", "** beyond which operands reach POW (uninterpreted)",
                                "`//` outside the designated sub-family (known finding on sqlite)", "dialects other than sqlite/generic",
                                "generic: bare '/' read as real division; mixed comparison chains on which engines disagree are not given a meaning"]
